@@ -17,7 +17,9 @@ import (
 	securityclient "istio.io/client-go/pkg/apis/security/v1"
 	"istio.io/istio/pilot/pkg/model"
 	"istio.io/istio/pilot/pkg/serviceregistry/ambient"
+	"istio.io/istio/pkg/config/schema/kind"
 	"istio.io/istio/pkg/kube/krt"
+	"istio.io/istio/pkg/util/sets"
 	"istio.io/istio/pkg/workloadapi/security"
 	"verifharness/internal/wire"
 )
@@ -45,7 +47,8 @@ type ambientView struct {
 
 	authz krt.Collection[model.WorkloadAuthorization] // empty: no AuthorizationPolicy in these cases
 
-	sentCache map[string]*security.Authorization
+	sentCache   map[string]*security.Authorization
+	servedByKey map[string]bool
 }
 
 func (s *sut) ambientView() *ambientView {
@@ -90,11 +93,20 @@ func (v *ambientView) sent(root string) map[string]*security.Authorization {
 	wps := krt.NewStaticCollection[ambient.Waypoint](nil, nil, opts.WithName("waypoints")...)
 	_, policies := ambient.PolicyCollections(authz, pas, mesh, wps, opts, ambient.FeatureFlags{})
 	policies.WaitUntilSynced(stop)
+	// what ztunnel is served: the REAL index.Policies - everything on a full push (nil) ...
 	out := map[string]*security.Authorization{}
-	for _, wa := range policies.List() {
+	for _, wa := range ambient.VerifIndexPolicies(policies, nil) {
 		if wa.Authorization != nil {
 			out[wa.ResourceName()] = wa.Authorization
 		}
+	}
+	// ... and, on an incremental push, exactly the policy asked for: the workload-authorization generator
+	// requests converted PeerAuthentication policies by (kind AuthorizationPolicy, namespace, name)
+	v.servedByKey = map[string]bool{}
+	for name, a := range out {
+		key := model.ConfigKey{Kind: kind.AuthorizationPolicy, Name: a.Name, Namespace: a.Namespace}
+		got := ambient.VerifIndexPolicies(policies, sets.New(key))
+		v.servedByKey[name] = len(got) == 1 && got[0].Authorization != nil && got[0].ResourceName() == name
 	}
 	v.sentCache = out
 	return out
@@ -210,6 +222,7 @@ func showAuthz(a *security.Authorization) string {
 // ---------------------------------------------------------------- the aq op
 
 type ambientResult struct {
+	served   bool // every attached policy is also returned when requested by its key
 	fetched  []string
 	keys     []string
 	pol      string
@@ -231,8 +244,12 @@ func (s *sut) ambientEval(ns string, labels [][2]string) ambientResult {
 	sort.Strings(res.keys)
 	res.pol = "-"
 	sent := v.sent(s.root)
+	res.served = true
 	for _, k := range res.keys {
 		a := sent[k]
+		if a == nil || !v.servedByKey[k] {
+			res.served = false
+		}
 		if strings.HasSuffix(k, "/"+ambient.VerifStaticStrictPolicyName) {
 			if a == nil {
 				res.pol = "static-strict-not-sent"
@@ -284,7 +301,7 @@ func (s *sut) ambientQuery(ns string, labels [][2]string, _ string, ports []uint
 	if len(ds) > 0 {
 		d = strings.Join(ds, ",")
 	}
-	return fmt.Sprintf("F=%s K=%s P=%s D=%s", wire.EncList(res(r.fetched)), wire.EncList(res(r.keys)), r.pol, d)
+	return fmt.Sprintf("F=%s K=%s P=%s D=%s S=%s", wire.EncList(res(r.fetched)), wire.EncList(res(r.keys)), r.pol, d, wire.B(r.served))
 }
 
 func res(l []string) []string { return l }
@@ -388,6 +405,10 @@ func (s *sut) ambientOracle(f []string, _ string, fail func(clause, class, detai
 		}
 		fail("ambient-strict-exact", class, fmt.Sprintf("port %d spec-strict %v rejected %v keys %s policy %s wl %s/%s ns %s mesh %s",
 			p, want, got, strings.Join(r.keys, ","), r.pol, wlMode, portMode, l.nsMode, l.meshMode))
+		return
+	}
+	if !r.served && !r.dangling {
+		fail("ambient-policy-served", "attached-policy-not-returned-for-its-key", strings.Join(r.keys, ","))
 		return
 	}
 	// exact on every port: the workload must still not reference a policy that istiod does not send
